@@ -1,7 +1,12 @@
 import CogentModel.Model.View
 import CogentModel.Spec.PySlice
 import CogentModel.Proofs.ViewInv
-/-! # C01 — property theorems (views obey the slice algebra) -/
+import CogentModel.Proofs.ViewSem
+/-! # C01 — property theorems (views obey the slice algebra)
+
+`Inv` is the representation invariant of slice records, `elems v` the list of
+parent positions a view displays (`Proofs/ViewSem.lean`), `PySlice` the
+language-level semantics of Python slicing (`Spec/PySlice.lean`). -/
 namespace CogentModel.C01
 open CogentModel.View
 
@@ -13,5 +18,62 @@ theorem mk_inv (n : Int) (hn : 0 ≤ n) (start stop step : Option Int) (offset :
 
 example : Inv { start := -3, stop := -10, step := -2, offset := 0, seqLen := 10 } := by decide
 example : mk 10 (some 7) (some 1) (some (-2)) 0 = .ok { start := -3, stop := -9, step := -2, offset := 0, seqLen := 10 } := by rfl
+
+/-- Slicing (any start/stop/step, `None`, negative, out of range; both `_zero_slice`
+flavours) preserves the invariant. -/
+theorem getitem_inv (fl : Flavour) (v : View) (h : Inv v) (a b c : Option Int) (w : View)
+    (hw : getitemSlice fl v a b c = .ok w) : Inv w :=
+  getitemSlice_inv fl v h a b c w hw
+
+/-- Integer indexing preserves the invariant. -/
+theorem getitem_int_inv (v : View) (h : Inv v) (i : Int) (w : View)
+    (hw : getitemInt v i = .ok w) : Inv w :=
+  getitemInt_inv v h i w hw
+
+example : getitemSlice .seqView { start := 1, stop := 8, step := 2, offset := 0, seqLen := 10 } none none (some (-1))
+    = .ok { start := -3, stop := -10, step := -2, offset := 0, seqLen := 10 } := by rfl
+
+/-- A chain of operations on a view. -/
+inductive Op where
+  | slice (a b c : Option Int)
+  | index (i : Int)
+
+def step1 (fl : Flavour) (v : View) : Op → Except Err View
+  | .slice a b c => getitemSlice fl v a b c
+  | .index i => getitemInt v i
+
+def runOps (fl : Flavour) : View → List Op → Except Err View
+  | v, [] => .ok v
+  | v, op :: ops => match step1 fl v op with
+    | .ok w => runOps fl w ops
+    | .error e => .error e
+
+/-- **Every reachable view satisfies the invariant**: any constructor call followed by
+any finite chain of slice / index operations (of any depth). -/
+theorem reachable_inv (fl : Flavour) (ops : List Op) (v w : View) (h : Inv v)
+    (hw : runOps fl v ops = .ok w) : Inv w := by
+  induction ops generalizing v with
+  | nil => simp [runOps] at hw; subst hw; exact h
+  | cons op ops ih =>
+    unfold runOps at hw
+    cases hs : step1 fl v op with
+    | error e => simp [hs] at hw
+    | ok u =>
+      simp [hs] at hw
+      refine ih u ?_ hw
+      cases op with
+      | slice a b c => exact getitemSlice_inv fl v h a b c u hs
+      | index i => exact getitemInt_inv v h i u hs
+
+/-- the assertions in `parent_start`/`parent_stop` never fire on a reachable view -/
+theorem parent_coords_defined (v : View) (h : Inv v) :
+    (∃ a, parentStart v = .ok a) ∧ (∃ b, parentStop v = .ok b) := by
+  unfold parentStart parentStop
+  rcases h with ⟨_, h | h⟩
+  · have : ¬ v.step < 0 := by omega
+    simp [this]
+  · have h1 : v.stop < 0 := by omega
+    have h2 : v.start < 0 := by omega
+    simp [h.1, h1, h2]
 
 end CogentModel.C01
